@@ -770,6 +770,7 @@ func c02R3(c *Ctx) {
 	const R3 = "C02.R3.error-surfacing"
 	c.Expect(R3, 30)
 	for _, f := range c02R3Funcs(c.P) {
+		c02DeferredResultWrites(c, f)
 		seen := map[string]int{}
 		for _, call := range Calls(f, func(string) bool { return true }) {
 			mon, tol := c02Monitored(call)
@@ -940,6 +941,10 @@ func c02Go(c *Ctx) {
 }
 
 var c02Mutants = []Mutant{
+	{Name: "deferred-start-overwrites-root-error", File: "extendedcopy.go",
+		Old:    "\treturn syncutil.Go(ctx, limiter, func(ctx context.Context, region *syncutil.LimitedRegion, root ocispec.Descriptor) error {\n\t\t// As a root can be a predecessor of other roots, release the limit here\n\t\t// for dispatching, to avoid dead locks where predecessor roots are\n\t\t// handled first and are waiting for its successors to complete.\n\t\tregion.End()\n\t\tif err := copyGraph(ctx, src, dst, root, proxy, limiter, tracker, opts.CopyGraphOptions); err != nil {\n\t\t\treturn err\n\t\t}\n\t\treturn region.Start()\n\t}, roots...)",
+		New:    "\treturn syncutil.Go(ctx, limiter, func(ctx context.Context, region *syncutil.LimitedRegion, root ocispec.Descriptor) (err error) {\n\t\tregion.End()\n\t\tdefer func() {\n\t\t\terr = region.Start()\n\t\t}()\n\t\treturn copyGraph(ctx, src, dst, root, proxy, limiter, tracker, opts.CopyGraphOptions)\n\t}, roots...)",
+		Expect: "C02.R3.error-surfacing"},
 	{Name: "foreign-layer-marked-done-unpushed", File: "copy.go",
 		Old:    "\t\t// find successors while non-leaf nodes will be fetched and cached\n",
 		New:    "\t\tif descriptor.IsForeignLayer(desc) {\n\t\t\treturn nil\n\t\t}\n\t\t// find successors while non-leaf nodes will be fetched and cached\n",
